@@ -391,7 +391,7 @@ def run(ctx):
     vals = uniq
 
     maxlen = int(cfg.get_option("hash.max_sequence_size"))
-    strata = [(maxlen, vals)]
+    strata = [(maxlen, vals, {})]
     # second stratum: a small max_sequence_size so that SEQUENCE_TOO_LONG is reachable
     conts = [j for j in vals if j["t"] in ("list", "tuple", "dict", "odict", "dc", "nt", "dcs")]
     three = [jv("int", "1"), jv("int", "2"), jv("int", "3")]
@@ -404,14 +404,22 @@ def run(ctx):
         nested_long += [lo, jv("list", [lo]), jv("tuple", [jv("int", "0"), lo]), jv("dict", [[jv("str", "k"), lo]]), jv("dict", [[jv("int", "7"), lo]]),
                         jv("dc", [["k", lo]]), jv("nt", [["k", lo]]), jv("list", [jv("list", [jv("dict", [[jv("str", "k"), lo]])])])]
     stride = max(1, len(conts) // 1500)
-    strata.append((2, nested_long + conts[::stride][:1500]))
+    strata.append((2, nested_long + conts[::stride][:1500], {}))
+    # third stratum: the options of the *tracking* of module-level containers (accept_list / accept_dict) are switched off: the
+    # hash of a value is a function of the value, the model has no such parameter
+    strata.append((maxlen, conts[::stride][:1500] + vals[:200], {"accept_list": False, "accept_dict": False}))
 
-    for (mx, vs) in strata:
+    for (mx, vs, opts) in strata:
         cfg.set_option("hash.max_sequence_size", mx)
+        for ok_, ov_ in opts.items():
+            cfg.set_option(ok_, ov_)
+            res.count("values_hashed_with_%s_%s" % (ok_, ov_), len(vs))
         try:
             impl = [impl_hash(dds_hash, DDSException, j) for j in vs]
         finally:
             cfg.reset_option("hash.max_sequence_size")
+            for ok_ in opts:
+                cfg.reset_option(ok_)
         model = None
         if ctx["driver_ok"]:
             try:
